@@ -987,6 +987,8 @@ func (t *trzszTransfer) sendFiles(sourceFiles []*sourceFile, progress progressCa
 		if err := t.sendFileMD5(digest, progress); err != nil {
 			return nil, err
 		}
+
+		file.Close() // release the descriptor now, the deferred close only matters on error paths
 	}
 
 	return remoteNames, nil
